@@ -38,7 +38,10 @@ CONSTANTS MaxAddrs,   \* maxPeerAddresses, scaled
           RPM,        \* limiter: requests per minute (global == per peer here: one requester)
           DDRPM,      \* limiter: dial-data requests per minute
           MaxParts,   \* most "part" segments in one dial-data script
-          MinAsk, MaxAsk  \* the range the asked number of bytes must lie in (30 000, 100 000)
+          MinAsk, MaxAsk, \* the range the asked number of bytes must lie in (30 000, 100 000)
+          KeepAddrs   \* FALSE = the code: dialBack's cleanup clears the dialer host's address book.
+                      \* TRUE  = mutation variant (cleanup forgets ClearAddrs): the driver requires TLC to
+                      \*         find DialOnlyRequested violated with it (the hazard is really modelled).
 
 Classes == {"priv", "undial", "malformed", "pubSame", "pubOther"}
 Dialable(c) == c \in {"pubSame", "pubOther"}
@@ -56,10 +59,14 @@ VARIABLES acc,     \* grants of limiter.Accept inside the current minute
           idx,     \* chosen address (1-based; 0 when idle)
           rem,     \* "FULL" | "MID" | "ONE" while reading dial data, "NA" otherwise
           parts,   \* "part" segments consumed (bounds the scripts)
+          prev,    \* history: "other" if a foreign-IP address of this requester was dialled (paid for by an
+                   \* EARLIER request) less than TempAddrTTL (2 min) ago, else "none"
+          prevAge, \* whole minutes since that dial (0..1)
+          held,    \* dialerAddrs: does the dialer host's address book still hold that foreign address?
           op
 
-vars == <<acc, ddacc, phase, cur, idx, rem, parts, op>>
-View == <<acc, ddacc, phase, cur, idx, rem, parts>>
+vars == <<acc, ddacc, phase, cur, idx, rem, parts, prev, prevAge, held, op>>
+View == <<acc, ddacc, phase, cur, idx, rem, parts, prev, prevAge, held>>
 
 Min(S) == CHOOSE x \in S : \A y \in S : x <= y
 Inspected(a) == 1..(IF Len(a) < MaxAddrs THEN Len(a) ELSE MaxAddrs)
@@ -67,17 +74,25 @@ Inspected(a) == 1..(IF Len(a) < MaxAddrs THEN Len(a) ELSE MaxAddrs)
 FirstDialable(a) == LET ok == {i \in Inspected(a) : Dialable(a[i])} IN IF ok = {} THEN 0 ELSE Min(ok)
 
 Init == /\ acc = 0 /\ ddacc = 0 /\ phase = "idle" /\ cur = <<>> /\ idx = 0 /\ rem = "NA" /\ parts = 0
+        /\ prev = "none" /\ prevAge = 0 /\ held = FALSE
         /\ op = [name |-> "init"]
 
 Idle == /\ phase' = "idle" /\ cur' = <<>> /\ idx' = 0 /\ rem' = "NA" /\ parts' = 0
 
-NoDial == [dial |-> FALSE, dstat |-> "NA", dres |-> "na", remAtDial |-> "NA"]
+NoDial == [dial |-> FALSE, dstat |-> "NA", dres |-> "na", remAtDial |-> "NA", stale |-> FALSE]
+NoHist == UNCHANGED <<prev, prevAge, held>>
+(* dialBack: AddAddr(chosen); Connect(AddrInfo{ID: p}) dials EVERYTHING the dialer host holds for p; the     *)
+(* deferred cleanup (ClosePeer, ClearAddrs, RemovePeer) then empties the address book (unless KeepAddrs).    *)
+(* `stale` = the dial also went to the foreign address left over from an earlier request.                    *)
+DidDial(cls) == /\ prev' = IF cls = "pubOther" THEN "other" ELSE prev
+                /\ prevAge' = IF cls = "pubOther" THEN 0 ELSE prevAge
+                /\ held' = (KeepAddrs /\ (cls = "pubOther" \/ held))
 
 (* A request that is not a DialRequest: consumes a limiter grant (the rate check precedes parsing), *)
 (* is answered with a reset, or with E_REQUEST_REJECTED when the limiter refuses.                   *)
 BadRequest(k) ==
   /\ phase = "idle"
-  /\ Idle /\ UNCHANGED ddacc
+  /\ Idle /\ UNCHANGED ddacc /\ NoHist
   /\ acc' = IF acc < RPM THEN acc + 1 ELSE acc
   /\ op' = [name |-> "request", kind |-> k, addrs |-> <<>>, idx |-> 0, needData |-> FALSE,
             resp |-> IF acc < RPM THEN "RESET" ELSE "REJECTED"] @@ NoDial
@@ -88,22 +103,22 @@ Request(a, o) ==
          need == i > 0 /\ a[i] = "pubOther"         \* amplificationAttackPrevention
          base == [name |-> "request", kind |-> "normal", addrs |-> a]
      IN IF acc >= RPM THEN                           \* limiter.Accept refuses, before parsing
-           /\ Idle /\ UNCHANGED <<acc, ddacc>> /\ o = "ok"
+           /\ Idle /\ UNCHANGED <<acc, ddacc>> /\ o = "ok" /\ NoHist
            /\ op' = base @@ [idx |-> 0, needData |-> FALSE, resp |-> "REJECTED"] @@ NoDial
         ELSE IF i = 0 THEN                           \* no public dialable address: refused, no dial
-           /\ Idle /\ acc' = acc + 1 /\ UNCHANGED ddacc /\ o = "ok"
+           /\ Idle /\ acc' = acc + 1 /\ UNCHANGED ddacc /\ o = "ok" /\ NoHist
            /\ op' = base @@ [idx |-> 0, needData |-> FALSE, resp |-> "REFUSED"] @@ NoDial
         ELSE IF need /\ ddacc >= DDRPM THEN          \* limiter.AcceptDialDataRequest refuses
-           /\ Idle /\ acc' = acc + 1 /\ UNCHANGED ddacc /\ o = "ok"
+           /\ Idle /\ acc' = acc + 1 /\ UNCHANGED ddacc /\ o = "ok" /\ NoHist
            /\ op' = base @@ [idx |-> i, needData |-> TRUE, resp |-> "REJECTED"] @@ NoDial
         ELSE IF need THEN                            \* DialDataRequest sent, server reads dial data
            /\ phase' = "data" /\ cur' = a /\ idx' = i /\ rem' = "FULL" /\ parts' = 0
-           /\ acc' = acc + 1 /\ ddacc' = ddacc + 1 /\ o = "ok"
+           /\ acc' = acc + 1 /\ ddacc' = ddacc + 1 /\ o = "ok" /\ NoHist
            /\ op' = base @@ [idx |-> i, needData |-> TRUE, resp |-> "DATAREQ", askLo |-> MinAsk, askHi |-> MaxAsk] @@ NoDial
         ELSE                                         \* same IP: dial back at once
-           /\ Idle /\ acc' = acc + 1 /\ UNCHANGED ddacc
+           /\ Idle /\ acc' = acc + 1 /\ UNCHANGED ddacc /\ DidDial("pubSame")
            /\ op' = base @@ [idx |-> i, needData |-> FALSE, resp |-> "OK", dial |-> TRUE, dstat |-> DStat(o),
-                             dres |-> o, remAtDial |-> "NA"]
+                             dres |-> o, remAtDial |-> "NA", stale |-> held]
 
 (* readDialData consuming one segment *)
 Data(seg, o) ==
@@ -112,27 +127,31 @@ Data(seg, o) ==
   /\ LET base == [name |-> "data", seg |-> seg, idx |-> idx] IN
      CASE seg = "part" ->
             /\ parts < MaxParts /\ rem \in {"FULL", "MID"} /\ o = "ok"
-            /\ rem' = "MID" /\ parts' = parts + 1 /\ UNCHANGED <<phase, cur, idx>>
+            /\ rem' = "MID" /\ parts' = parts + 1 /\ UNCHANGED <<phase, cur, idx>> /\ NoHist
             /\ op' = base @@ [resp |-> "MORE"] @@ NoDial
        [] seg = "allbut1" ->
             /\ rem \in {"FULL", "MID"} /\ o = "ok"
-            /\ rem' = "ONE" /\ UNCHANGED <<phase, cur, idx, parts>>
+            /\ rem' = "ONE" /\ UNCHANGED <<phase, cur, idx, parts>> /\ NoHist
             /\ op' = base @@ [resp |-> "MORE"] @@ NoDial
        [] seg \in {"rest", "over"} ->               \* remain <= 0: (random wait, then) dial back
-            /\ Idle
-            /\ op' = base @@ [resp |-> "OK", dial |-> TRUE, dstat |-> DStat(o), dres |-> o, remAtDial |-> "DONE"]
+            /\ Idle /\ DidDial("pubOther")
+            /\ op' = base @@ [resp |-> "OK", dial |-> TRUE, dstat |-> DStat(o), dres |-> o, remAtDial |-> "DONE", stale |-> held]
        [] seg \in {"tiny", "huge"} ->               \* "dial data msg too small" / ErrShortBuffer: reset, no dial
-            /\ Idle /\ o = "ok"
+            /\ Idle /\ o = "ok" /\ NoHist
             /\ op' = base @@ [resp |-> "RESET"] @@ NoDial
 
 End(k) ==
   /\ phase = "data"
-  /\ Idle /\ UNCHANGED <<acc, ddacc>>
+  /\ Idle /\ UNCHANGED <<acc, ddacc>> /\ NoHist
   /\ op' = [name |-> "end", kind |-> k, idx |-> idx, resp |-> "RESET"] @@ NoDial
 
 Minute ==
-  /\ phase = "idle" /\ (acc > 0 \/ ddacc > 0)
+  /\ phase = "idle" /\ (acc > 0 \/ ddacc > 0 \/ prev = "other")
   /\ acc' = 0 /\ ddacc' = 0 /\ UNCHANGED <<phase, cur, idx, rem, parts>>
+  \* the second minute carries the old dial past TempAddrTTL: the address book entry (if any) expires
+  /\ prev' = IF prev = "other" /\ prevAge = 0 THEN "other" ELSE "none"
+  /\ prevAge' = IF prev = "other" /\ prevAge = 0 THEN 1 ELSE 0
+  /\ held' = (held /\ prev = "other" /\ prevAge = 0)
   /\ op' = [name |-> "minute"]
 
 Next == \/ \E a \in Requests, o \in Outcomes : Request(a, o)
@@ -144,17 +163,19 @@ Next == \/ \E a \in Requests, o \in Outcomes : Request(a, o)
 Spec == Init /\ [][Next]_vars
 
 ----------------------------------------------------------------------------
-TypeOK == /\ acc \in 0..RPM /\ ddacc \in 0..DDRPM /\ phase \in {"idle", "data"}
+TypeOK == /\ prev \in {"none", "other"} /\ prevAge \in 0..1 /\ held \in BOOLEAN /\ (held => prev = "other")
+          /\ acc \in 0..RPM /\ ddacc \in 0..DDRPM /\ phase \in {"idle", "data"}
           /\ (phase = "data") <=> (rem \in {"FULL", "MID", "ONE"})
           /\ (phase = "data") => (idx \in 1..Len(cur) /\ cur[idx] = "pubOther")
 
 \* the request an action belongs to
 ReqOf == IF op'.name = "request" THEN op'.addrs ELSE cur
 
-\* dials only an address taken from the request (and, in the harness, only the requester)
+\* dials only an address taken from the request (and, in the harness, only the requester): the chosen
+\* address is one of the request's and nothing left over from an earlier request is dialled with it
 DialOnlyRequested ==
   [][(op'.name \in {"request", "data", "end"} /\ op'.dial) =>
-        (op'.idx \in 1..Len(ReqOf) /\ Dialable(ReqOf[op'.idx]))]_vars
+        (op'.idx \in 1..Len(ReqOf) /\ Dialable(ReqOf[op'.idx]) /\ ~op'.stale)]_vars
 
 \* a dial to an address whose IP differs happens only after all the asked bytes arrived
 DataBeforeDial ==
